@@ -1825,6 +1825,24 @@ func (engine) runCase(c *Case) lib.Result {
 			}
 		}
 	}
+	// the static tie of the protocol model: the order in which the goroutine of a task runs the tool,
+	// the recover handler and wg.Done, as the source has it
+	static, staticTag := "", ""
+	if c.goroutinePanic() || c.peerCase().goroutinePanic() {
+		prog, why := goroutineProg()
+		switch {
+		case prog == nil:
+			staticTag = "static:goroutine-epilogue:unrecognised(" + why + ")"
+		default:
+			staticTag = "static:goroutine-epilogue:" + strings.Join(prog, ";")
+			static = lib.CoqApp("RStatic", lib.CoqList(prog))
+			if res.Oracle == "" && !progIsCode(prog) {
+				res.Oracle = "parallelRunToolCall (source): a task's goroutine executes " + strings.Join(prog, "; ") +
+					": wg.Done runs before the recover handler has stored the panic error, so the caller can pass wg.Wait and scan the cells while the error of a panicking call (here a call of index >= 1 panics) is not yet there (theorem tools_par_v0_refuted); the repeated runs of this case did not hit that schedule"
+				res.Sig = "defer-order"
+			}
+		}
+	}
 	for _, p := range runPlan {
 		if res.Oracle != "" {
 			break
@@ -1859,6 +1877,9 @@ func (engine) runCase(c *Case) lib.Result {
 	}
 	res.Obs = obs
 	if sendable && res.Oracle == "" {
+		if static != "" {
+			terms = append(terms, static)
+		}
 		res.CoqTerm = cur.wrap(c.coq(terms))
 	}
 	// distribution
@@ -1954,6 +1975,9 @@ func (engine) runCase(c *Case) lib.Result {
 		}
 	}
 	res.Tags = append(res.Tags, fmt.Sprintf("completion-out-of-order:%v", ooo))
+	if staticTag != "" {
+		res.Tags = append(res.Tags, staticTag)
+	}
 	res.Nontrivial = len(c.Calls) >= 2
 	return res
 }
